@@ -16,6 +16,11 @@ structure St where
   cfg : Ctrl.Cfg := { kind := "" }
   store : Store := []
   spec : Bool := false
+  /-- per key: the highest version an EARLIER incarnation (destroyed since) reached. While the current incarnation's
+      version is not above it, a read-modify-write helper that read the earlier incarnation can still commit
+      (versions restart at 1: the store's ABA window, DESIGN §5 "observed") — such a write is the helper's mutator
+      applied to the OLD incarnation, which the controller machines do not model: trace inclusion is not demanded -/
+  prevMax : List (Key × Nat) := []
 
 def init (spec : Bool) (a : List (String × String)) : St :=
   { cfg := { kind := arg a "ctl" }, spec := spec }
@@ -31,9 +36,26 @@ def stepLine (st : St) (op : String) (a : List (String × String)) : St × Strin
     | none => (st, "bad-op")
     | some o =>
       let (s', out) := step {} st.store (argNat a "t") o
+      -- the key written and its version before the write
+      let key : Option Key := match o with
+        | .update r _ _ => some (r.key {})
+        | .create r _ => some (r.key {})
+        | .destroy ns typ id _ => some (({} : Cfg).key ns typ id)
+        | _ => none
+      let curVer : Nat := match key.bind st.store.get with
+        | some r => r.ver.getD 0
+        | none => 0
+      let abaWindow := match key with
+        | some k => curVer != 0 && curVer ≤ ((st.prevMax.lookup k).getD 0)
+        | none => false
       let v := violations st.cfg (arg a "a") o out.isOk st.store s' ++
-        (if st.spec then [] else machineViolations st.cfg (arg a "a") out.isOk st.store s')
-      ({ st with store := s' },
+        (if st.spec || abaWindow then [] else machineViolations st.cfg (arg a "a") out.isOk st.store s')
+      -- a successful destroy ends an incarnation
+      let prevMax' := match o, key with
+        | .destroy .., some k =>
+          if out.isOk then (k, max curVer ((st.prevMax.lookup k).getD 0)) :: st.prevMax.filter (·.1 != k) else st.prevMax
+        | _, _ => st.prevMax
+      ({ st with store := s', prevMax := prevMax' },
         outStr out (arg a "ns") (arg a "typ") ++ (if v.isEmpty then " inv=ok" else " inv=VIOLATED:" ++ ",".intercalate v))
 
 end Cosi.Driver.Ctrl
